@@ -1,5 +1,6 @@
 pub mod c01;
 pub mod c02;
+pub mod c03;
 pub mod c05;
 pub mod c07;
 pub mod c08;
@@ -9,9 +10,13 @@ pub mod c11;
 pub mod c13;
 pub mod c14;
 pub mod c15;
+pub mod c20;
 
 /// entry for internal child-process sub-commands
 pub fn child_main(args: &[String]) -> i32 {
+    if args.first().map(|s| s.as_str()) == Some("--c20-child") {
+        return c20::child_main(&args[1..]);
+    }
     eprintln!("unknown sub-command {:?}", args.first());
     2
 }
